@@ -130,3 +130,111 @@ pub fn powi_stub(base: f64, n: i32) -> f64 {
     }
 }
 
+
+// ---- C07c / C06b: number printing (trimming of the `{:.10}` text, leading-zero removal in compressed mode) ----
+
+use crate::util::{fixed_random_state, s, span};
+use grass_compiler::verif::{number_to_string, serializer_float};
+
+static mut DIGITS: Option<[u8; 12]> = None;
+
+/// Contract stub for `format!("{:.10}", v)` with 0 <= v < 10 (float-to-decimal conversion does not finish under
+/// CBMC): one integer digit, '.', ten fraction digits, the same text on every call of one run. The harness
+/// assumes the text is the correctly rounded 10-place decimal of v.
+pub fn digits_fmt_stub(_args: core::fmt::Arguments<'_>) -> String {
+    let d = unsafe {
+        if DIGITS.is_none() {
+            let d: [u8; 12] = kani::any();
+            // assumptions are not retroactive: the shape of the text is fixed before the kernel reads it
+            kani::assume(d[1] == b'.');
+            let mut i = 0;
+            while i < 12 {
+                if i != 1 { kani::assume(d[i] >= b'0' && d[i] <= b'9'); }
+                i += 1;
+            }
+            DIGITS = Some(d);
+        }
+        DIGITS.unwrap()
+    };
+    s(d)
+}
+
+/// canonical spelling of the decimal D (= d0 '.' d1..d10) with sign `neg`
+fn canonical(d: &[u8], neg: bool, compressed: bool) -> ([u8; 14], usize) {
+    let mut out = [0u8; 14];
+    let mut n = 0;
+    let mut flen = 10;
+    while flen > 0 && d[1 + flen] == b'0' { flen -= 1; }
+    if d[0] == b'0' && flen == 0 {
+        out[0] = b'0';
+        return (out, 1);
+    }
+    if neg { out[n] = b'-'; n += 1; }
+    if !(compressed && d[0] == b'0') { out[n] = d[0]; n += 1; }
+    if flen > 0 {
+        out[n] = b'.';
+        n += 1;
+        let mut i = 0;
+        while i < flen { out[n] = d[2 + i]; n += 1; i += 1; }
+    }
+    (out, n)
+}
+
+fn print_check(compressed: bool, through_serializer: bool) {
+    let x: f64 = kani::any();
+    kani::assume(x > -10.0 && x < 10.0);
+    let text: Vec<u8> = if through_serializer {
+        let options = grass_compiler::Options::default().style(if compressed { grass_compiler::OutputStyle::Compressed } else { grass_compiler::OutputStyle::Expanded });
+        let map = grass_compiler::codemap::CodeMap::new();
+        let t = serializer_float(x, &options, &map, span(0));
+        core::mem::forget(options);
+        core::mem::forget(map);
+        t
+    } else {
+        number_to_string(Number(x), compressed).into_bytes()
+    };
+    // the decimal text the kernel saw: the stub's (under Kani) or the real formatting (native replay)
+    let dtext = format!("{:.10}", x.abs());
+    let d = dtext.as_bytes();
+    kani::assume(d.len() == 12 && d[1] == b'.');
+    let mut i = 0;
+    let mut value = 0.0f64;
+    let mut scale = 1.0f64;
+    while i < 12 {
+        if i != 1 {
+            kani::assume(d[i] >= b'0' && d[i] <= b'9');
+            value += (d[i] - b'0') as f64 * scale;
+            scale /= 10.0;
+        }
+        i += 1;
+    }
+    // correctly rounded to 10 places (slack for the float evaluation of the digits)
+    let diff = if value > x.abs() { value - x.abs() } else { x.abs() - value };
+    kani::assume(diff <= 0.5000001e-10);
+    let (want, wn) = canonical(d, x < 0.0, compressed);
+    assert!(text.len() == wn, "C07c: printed number is not the canonical spelling of its 10-place decimal (length)");
+    let mut k = 0;
+    while k < wn {
+        assert!(text[k] == want[k], "C07c: printed number is not the canonical spelling of its 10-place decimal");
+        k += 1;
+    }
+    kani::cover!(d[0] == b'1' && x.abs() < 1.0, "rounds_up_to_one");
+    kani::cover!(wn == 1 && want[0] == b'0' && x != 0.0, "rounds_to_zero");
+    kani::cover!(true, "end");
+    core::mem::forget(text);
+    core::mem::forget(dtext);
+}
+
+macro_rules! pinst {
+    ($name:ident, $c:expr, $s:expr) => {
+        #[kani::proof]
+        #[kani::unwind(16)]
+        #[kani::stub(std::hash::RandomState::new, fixed_random_state)]
+        #[kani::stub(alloc::fmt::format, digits_fmt_stub)]
+        pub fn $name() { print_check($c, $s) }
+    };
+}
+pinst!(c07c_print_expanded, false, false);
+pinst!(c07c_print_compressed, true, false);
+pinst!(c07c_write_float_expanded, false, true);
+pinst!(c07c_write_float_compressed, true, true);
